@@ -3,6 +3,7 @@
 //vp:roots ./model/histogram ./model/value
 //vp:budget wall_s_thorough=3000
 //vp:thorough-only vpH_C11_hist_roundtrip
+//vp:bounds (quick: vpH_C11_hist_wiring) the same round trip with both sides populated: positive layouts a, b as enumerated, chunk-side positive counts symbolic in [0,2), new-side counts 2; negative side one of {absent, same layout, grows forward, drops an empty bucket (backward insert)}; concrete timestamps 10, 20
 //vp:bounds histogram chunk round trip through the public API (NewHistogramChunk, Appender, AppendHistogram incl. recode / recodeHistogram / new chunk on counter reset, Iterator.Next/AtHistogram): 2 integer histograms with positive-side layouts a, b of up to 2 spans each enumerated as in the reconciliation harness (quick bounds), bucket counts symbolic in [0,3), count and zero count concrete, timestamps t1 in [0,64), t2-t1 in [1,64), schema 0, equal zero threshold, sums 1.0 and 2.0
 //vp:assume small value ranges pin every varbit field to its first classes (the bit-stream coders over their full range are decided under C10); histograms are valid (counts non-negative)
 package chunkenc
@@ -106,5 +107,128 @@ func vpH_C11_hist_roundtrip() {
 	}
 	vpAssert(k == 2, "both histograms are read back")
 	// the caller's histograms are semantically unchanged (we passed copies; check the copies' source)
+	vpReach("end")
+}
+
+// Quick-tier wiring check: both sides of the histogram go through reconciliation, recode of the chunk and
+// recode of the appended histogram; what is read back is what was appended, per bucket index, on each side.
+func vpH_C11_hist_wiring() {
+	aSp, aIdx := vpXLayout("a")
+	bSp, bIdx := vpXLayout("b")
+	var aAbs, aDeltas, bAbs, bDeltas []int64
+	var prev int64
+	for range aIdx {
+		c := vpInt64()
+		vpAssume(vpAnd(c >= 0, c < 2))
+		aAbs, aDeltas = append(aAbs, c), append(aDeltas, c-prev)
+		prev = c
+	}
+	prev = 0
+	for range bIdx {
+		bAbs, bDeltas = append(bAbs, 2), append(bDeltas, 2-prev)
+		prev = 2
+	}
+	type side struct {
+		sp  []histogram.Span
+		idx []int
+		abs []int64
+	}
+	mk := func(idx []int, abs []int64) side {
+		var sp []histogram.Span
+		last := 0
+		for k, i := range idx {
+			if k > 0 && i == last+1 {
+				sp[len(sp)-1].Length++
+			} else {
+				off := i - last
+				if k > 0 {
+					off = i - last - 1
+				}
+				sp = append(sp, histogram.Span{Offset: int32(off), Length: 1})
+			}
+			last = i
+		}
+		return side{sp, idx, abs}
+	}
+	var n1, n2 side
+	switch vpShape("negative", 0, 3) {
+	case 1:
+		n1, n2 = mk([]int{0, 1}, []int64{1, 1}), mk([]int{0, 1}, []int64{3, 3})
+	case 2:
+		n1, n2 = mk([]int{0}, []int64{1}), mk([]int{0, 1}, []int64{3, 3})
+	case 3:
+		n1, n2 = mk([]int{0, 2}, []int64{1, 0}), mk([]int{0}, []int64{3})
+	}
+	deltasOf := func(abs []int64) []int64 {
+		var out []int64
+		var p int64
+		for _, a := range abs {
+			out = append(out, a-p)
+			p = a
+		}
+		return out
+	}
+	h1 := &histogram.Histogram{Schema: 0, ZeroThreshold: 0.001, ZeroCount: 1, Count: 5, Sum: 1, PositiveSpans: aSp, PositiveBuckets: aDeltas, NegativeSpans: n1.sp, NegativeBuckets: deltasOf(n1.abs)}
+	h2 := &histogram.Histogram{Schema: 0, ZeroThreshold: 0.001, ZeroCount: 1, Count: 9, Sum: 2, PositiveSpans: bSp, PositiveBuckets: bDeltas, NegativeSpans: n2.sp, NegativeBuckets: deltasOf(n2.abs)}
+	c := Chunk(NewHistogramChunk())
+	app, err := c.Appender()
+	if err != nil {
+		panic(err)
+	}
+	nc, _, app, err := app.AppendHistogram(nil, 0, 10, h1.Copy(), false)
+	vpAssert(err == nil && nc == nil, "first append stays in the chunk")
+	chunksOut := []Chunk{c}
+	nc, recoded, _, err := app.AppendHistogram(nil, 0, 20, h2.Copy(), false)
+	vpAssert(err == nil, "second append succeeds")
+	vpObserve("newchunk", nc != nil)
+	vpObserve("recoded", recoded)
+	if nc != nil {
+		if recoded {
+			chunksOut = []Chunk{nc}
+		} else {
+			chunksOut = append(chunksOut, nc)
+		}
+	}
+	check := func(label string, gsp []histogram.Span, gb []int64, w side) {
+		gIdx := vpXSpanIdxs(gsp)
+		vpAssert(len(gIdx) == len(gb), label+": spans match buckets")
+		if len(gIdx) != len(gb) {
+			return
+		}
+		gAbs := vpXAbsOf(gb)
+		for i, idx := range w.idx {
+			j := vpXIndexOf(gIdx, idx)
+			if j < 0 {
+				vpAssert(w.abs[i] == 0, label+": only empty buckets may be dropped from the layout")
+			} else {
+				vpAssert(gAbs[j] == w.abs[i], label+": bucket count read back as appended")
+			}
+		}
+		for j, idx := range gIdx {
+			if vpXIndexOf(w.idx, idx) < 0 {
+				vpAssert(gAbs[j] == 0, label+": buckets added by the chunk layout are empty")
+			}
+		}
+	}
+	wantsP := []side{{aSp, aIdx, aAbs}, {bSp, bIdx, bAbs}}
+	wantsN := []side{n1, n2}
+	k := 0
+	for _, ch := range chunksOut {
+		it := ch.Iterator(nil)
+		for it.Next() == ValHistogram {
+			vpAssert(k < 2, "no extra samples")
+			if k >= 2 {
+				return
+			}
+			ts, g := it.AtHistogram(nil)
+			vpAssert(ts == int64(10*(k+1)), "timestamp")
+			vpAssert(g.Count == []uint64{5, 9}[k] && g.ZeroCount == 1, "count and zero count")
+			check("positive side", g.PositiveSpans, g.PositiveBuckets, wantsP[k])
+			check("negative side", g.NegativeSpans, g.NegativeBuckets, wantsN[k])
+			k++
+		}
+		vpAssert(it.Err() == nil, "no iterator error")
+	}
+	vpAssert(k == 2, "both histograms are read back")
 	vpReach("end")
 }
